@@ -182,7 +182,9 @@ def run_data(idx, rng, sh):
                'string_offsets_queried': len(strtab), 'address_queries': len(qs)}, kind='data')
 
 
-SEG_TYPES = [1, 1, 2, 4, 7, 6, R.PT_GNU_RELRO, R.PT_GNU_EH_FRAME, R.PT_GNU_STACK, 3, 0x6474e553, 0x70000001, 5]
+SEG_TYPES = [1, 1, 2, 4, 7, 6, R.PT_GNU_RELRO, R.PT_GNU_EH_FRAME, R.PT_GNU_STACK, 3, 0x6474e553, 0x70000001, 5,
+             R.PT_GNU_EH_FRAME, R.PT_GNU_SFRAME, R.PT_GNU_MBIND_LO, R.PT_GNU_MBIND_HI, R.PT_GNU_MBIND_HI + 1, 0x70000000, 0x70000003,
+             0x6ffffffa, 0x6ffffffb, 0x60000000, 0x65a3dbe6]
 
 
 def geometry(rng, cls):
@@ -214,7 +216,10 @@ def build_geom(rng, cls, le, segs, secs):
     G = [elfgen.Seg(type=g['p_type'], flags=4, offset=g['p_offset'], vaddr=g['p_vaddr'], filesz=g['p_filesz'], memsz=g['p_memsz'])
          for g in segs]
     # section header table and string table well after every extent
-    img, info = elfgen.build(cls=cls, le=le, machine=62 if le else 21, etype=3, sections=S, segments=G, order=('ph', 'data', 'sh'))
+    # the rule is numeric: it holds whatever names the machine or the OS ABI give to the type codes
+    machine = (62 if le else 21) if rng.random() < 0.5 else rng.choice([3, 40, 183, 8, 243, 2, 22, 50, 0])
+    osabi = 0 if rng.random() < 0.5 else rng.choice([3, 6, 9, 12, 64, 97, 255])
+    img, info = elfgen.build(cls=cls, le=le, machine=machine, osabi=osabi, etype=3, sections=S, segments=G, order=('ph', 'data', 'sh'))
     return img, info
 
 
